@@ -134,6 +134,10 @@ pub struct BridgeSpec {
     /// (TLS, BufWriter, a pipe) whose flush has to wait for the consumer
     #[serde(default)]
     pub flush_pending: Option<(u8, u8)>,
+    /// the local side supports vectored writes (like TcpStream / UnixStream): `is_write_vectored()` is true and
+    /// `poll_write_vectored` takes bytes across the slices, partially when the write script says so
+    #[serde(default)]
+    pub vectored: bool,
 }
 
 #[derive(Clone, Debug, Hash, PartialEq, Eq, Serialize, Deserialize)]
@@ -984,6 +988,20 @@ impl AsyncWrite for ScriptedLocal {
             me.log.app(AppEv::ReadOk { stream: me.stream, end, n });
         }
         Poll::Ready(Ok(n))
+    }
+    fn is_write_vectored(&self) -> bool {
+        self.spec.vectored
+    }
+    fn poll_write_vectored(self: Pin<&mut Self>, cx: &mut std::task::Context<'_>, bufs: &[std::io::IoSlice<'_>]) -> Poll<std::io::Result<usize>> {
+        if !self.spec.vectored {
+            // the trait's default: the first non-empty slice
+            let buf = bufs.iter().find(|b| !b.is_empty()).map_or(&[][..], |b| &**b);
+            return self.poll_write(cx, buf);
+        }
+        // one scripted write over the concatenation of the slices (a partial write may end inside any slice or exactly
+        // between two of them)
+        let all: Vec<u8> = bufs.iter().flat_map(|b| b.iter().copied()).collect();
+        self.poll_write(cx, &all)
     }
     fn poll_flush(self: Pin<&mut Self>, cx: &mut std::task::Context<'_>) -> Poll<std::io::Result<()>> {
         let me = self.get_mut();
